@@ -315,8 +315,12 @@ def standin_roundtrip(tier, seed):
         cp = {float(t): rnd.choice([0.0, round(rnd.uniform(-3, 30), 6), rnd.uniform(1, 20)]) for t in Ts}
         H = rnd.choice([None, 0.0, -12.5, rnd.uniform(-200, 200)])
         S = rnd.choice([None, 0.0, rnd.uniform(0, 80)])
-        rg = rnd.choice([None, (lo, hi)]) if not Ts else (lo, hi)
-        c = ThermochemIncomplete(H, S, cp, 298.15, rg)
+        rg = rnd.choice([None, (lo, hi)])
+        try:
+            with real.quiet():
+                c = ThermochemIncomplete(H, S, cp, 298.15, rg)
+        except Exception:    # noqa  (a table whose span excludes T_ref needs an explicit range: K3)
+            c = ThermochemIncomplete(H, S, cp, 298.15, (lo, hi))
         for um in unit_maps:
             check('random%d' % r, c, um)
     for libname in (real.LIBS if tier != 'quick' else real.LIBS[:3]):
@@ -343,3 +347,10 @@ def replay_rt(model, state, ob):
 UNITS = [
     Unit('ThermochemIncomplete.yaml_format', (INC, 'ThermochemIncomplete.yaml_format'), u_yaml_format, replay_rt),
 ]
+# the reading half of the round trip: the loader contracts of C12 (missing parts stay missing, zero is data, no range stays no range)
+for _u in C12.UNITS:
+    if 'yaml_construct' in _u.name or 'qty_loader' in _u.name:
+        if getattr(_u, 'world_factory', None) is None:
+            _u.world_factory = C12.world
+        UNITS.append(_u)
+
